@@ -129,6 +129,10 @@ class Tracer:
         return n
 
     def decide(self, sb):
+        # the same comparison asked again on this path (Python's `not (a and b)` and `x < y <= z` test an operand twice)
+        for sb0, v0 in self.taken:
+            if sb0.op == sb.op and len(sb0.args) == len(sb.args) and all(p is q for p, q in zip(sb0.args, sb.args)):
+                return v0
         if self.pos < len(self.script):
             v = self.script[self.pos]
         else:
